@@ -158,11 +158,15 @@ def xver_codec_helpers(ck, F, G, R):
         for side in ("compress", "decompress"):
             p = f"compression::{stem}_{side}"
             if F.has_body(p) and G.has_body(p):
-                ca = sorted({callee_name(c) for s, c, t in F.body(p).calls() if c and not c["local"]})
-                cb = sorted({callee_name(c) for s, c, t in G.body(p).calls() if c and not c["local"]})
+                CODEC = ("snap::", "flate2::", "lz4_flex::", "zstd::", "<snap::", "<flate2::", "<lz4_flex::", "<zstd::")
+                iscodec = lambda n: n.startswith(CODEC) or any(("<" + c) in n or (" " + c) in n for c in CODEC[:4])
+                # only the calls into the codec crate are compared (which encoder / decoder, raw or framed, which
+                # entry points): buffer management around them is not part of the format
+                ca = sorted({callee_name(c) for s, c, t in F.body(p).calls() if c and not c["local"] and iscodec(callee_name(c))})
+                cb = sorted({callee_name(c) for s, c, t in G.body(p).calls() if c and not c["local"] and iscodec(callee_name(c))})
                 if not ca and not cb:
                     continue
-                if not cb or not any(x.startswith(("snap::", "flate2::", "lz4_flex::", "zstd::")) for x in cb):
+                if not cb:
                     continue  # feature compiled out in the sibling build: nothing to compare with
                 ck.ob(R, f"codec-helper-equal-0.4.7/{stem}_{side}", ca == cb, f"{p} uses the same external calls as in grenad 0.4.7" + ("" if ca == cb else f" — tree only: {sorted(set(ca) - set(cb))}; 0.4.7 only: {sorted(set(cb) - set(ca))}"), F.body(p), config="default+v047")
 
